@@ -473,7 +473,12 @@ func init() {
 				return nil
 			}
 			g.frameStore(st, fieldKey(T, i), args[0].Comps[0], intLit(1), pos, f.text(pos))
-			g.storeLeaf(st, fieldKey(T, i), args[0].Comps[0], Val{Typ: ft, Comps: args[1].Comps})
+			sv := args[1].Comps
+			if len(sv) == 1 && sv[0].Sort == SBool {
+				// atomic.Bool keeps its value in a uint32
+				sv = []Term{tIte(sv[0], intLit(1), intLit(0))}
+			}
+			g.storeLeaf(st, fieldKey(T, i), args[0].Comps[0], Val{Typ: ft, Comps: sv})
 			g.bumpTokAt(st, &args[0].Comps[0], false)
 			return nil
 		}
@@ -484,7 +489,13 @@ func init() {
 			if !ok {
 				return []Val{g.freshVal("atomic", instr.(ssa.Value).Type())}
 			}
-			return []Val{g.loadLeaf(st, fieldKey(T, i), args[0].Comps[0], ft)}
+			lv := g.loadLeaf(st, fieldKey(T, i), args[0].Comps[0], ft)
+			if rt := instr.(ssa.Value).Type(); len(lv.Comps) == 1 && lv.Comps[0].Sort == SInt {
+				if b, ok := under(rt).(*types.Basic); ok && b.Kind() == types.Bool {
+					lv = Val{Typ: rt, Comps: []Term{tNot(tEq(lv.Comps[0], intLit(0)))}}
+				}
+			}
+			return []Val{lv}
 		}
 	}
 	// slices.Concat(ss...): a freshly allocated slice (never aliases its arguments)
